@@ -148,3 +148,28 @@ Theorem C01_alt_values : forall p f bs v r, parse f bs = Some (v, r) -> supporte
   forall f', (fuel_for bs <= f')%nat -> exists g, rd_intf p f' bs = Ok (g, r) /\ value_of g = v.
 Proof. exact rd_intf_complete_fuel. Qed.
 Print Assumptions C01_alt_values.
+
+(* ---- what the correspondence check evaluates: the entry-list decoders that hand the loop's remaining fuel
+   down to each entry (model/ForwardFast.v, linear in the input) are the decoders of the theorems above
+   (model/Forward.v, fresh fuel per entry), because fuel is only a bound: a reader that does not run out of
+   fuel returns the same result with more ---- *)
+From FF Require Import model.ForwardFast.
+From FF Require proofs.Fuel_Proofs.
+
+Theorem C01_evaluated_forward_decoder : forall (p : path) (prev : forward) (bs : bytes),
+  U_forward_f p prev bs = U_forward p prev bs.
+Proof. exact Fuel_Proofs.U_forward_f_eq. Qed.
+Print Assumptions C01_evaluated_forward_decoder.
+
+Theorem C01_evaluated_entry_list_decoder : forall (p : path) (bs : bytes), U_entry_list_f p bs = U_entry_list p bs.
+Proof. exact Fuel_Proofs.U_entry_list_f_eq. Qed.
+Print Assumptions C01_evaluated_entry_list_decoder.
+
+Theorem C01_evaluated_unmarshal_packed : forall bs : bytes, unmarshal_packed_f bs = unmarshal_packed bs.
+Proof. exact Fuel_Proofs.unmarshal_packed_f_eq. Qed.
+Print Assumptions C01_evaluated_unmarshal_packed.
+
+Theorem C01_fuel_is_only_a_bound : forall (p : path) (f : nat) (bs : bytes),
+  (fuel_for bs <= f)%nat -> rd_intf p f bs = rd_intf p (fuel_for bs) bs.
+Proof. exact Fuel_Proofs.rd_intf_enough. Qed.
+Print Assumptions C01_fuel_is_only_a_bound.
